@@ -201,6 +201,97 @@ def check_r11a(repo, rep):
     return nsites
 
 
+def check_lazy_keys(repo, rep):
+    """R11f: the per-candidate set of lazy argument positions is keyed
+    exactly like the arguments the evaluation sweep walks: the index of a
+    positional argument and the *call's* keyword (the key of the keyword
+    mapping) -- not a property of the parameter such as its python name or
+    alias, which differs for aliased parameters and for arguments absorbed
+    by **kwargs."""
+    mod = repo.module(RUNNER)
+    fi = mod.func('choose_overload')
+    # the variable compared with / assigned to the agreed lazy set
+    lazy_var = None
+    for n in model.walk_shallow(fi.node):
+        if isinstance(n, ast.Compare) and len(n.ops) == 1 and isinstance(
+                n.ops[0], (ast.NotEq, ast.Eq)) and isinstance(
+                n.left, ast.Name) and 'lazy' in n.left.id and isinstance(
+                n.comparators[0], ast.Name):
+            lazy_var = n.comparators[0].id
+    if lazy_var is None:
+        rep.ob('R11f', fi.key + '/lazy-set', False,
+               'cannot find the comparison of the candidates\' lazy '
+               'argument sets in choose_overload', loc=mod.loc(fi.node))
+        return
+    builder = fi
+    for n in model.walk_shallow(fi.node):
+        if isinstance(n, ast.Assign) and any(
+                isinstance(t, ast.Name) and t.id == lazy_var
+                for t in n.targets) and isinstance(n.value, ast.Call):
+            d = repo.resolve(mod, n.value.func, model.scope_locals(fi))
+            t = repo.lookup(d) if d else None
+            if isinstance(t, model.FuncInfo):
+                builder = t
+                rets = [r.value for r in model.walk_shallow(t.node)
+                        if isinstance(r, ast.Return)]
+                if rets and isinstance(rets[0], ast.Name):
+                    lazy_var = rets[0].id
+    # element expressions added to the set, with the loop that binds them
+    elems = []
+    for n in ast.walk(builder.node):
+        if isinstance(n, ast.Call) and isinstance(n.func, ast.Attribute) \
+                and isinstance(n.func.value, ast.Name) and \
+                n.func.value.id == lazy_var:
+            if n.func.attr == 'add' and n.args:
+                elems.append((n.args[0], model.enclosing(n, ast.For)))
+            elif n.func.attr == 'update' and n.args and isinstance(
+                    n.args[0], (ast.GeneratorExp, ast.ListComp,
+                                ast.SetComp)):
+                elems.append((n.args[0].elt, n.args[0].generators[0]))
+        if isinstance(n, ast.Assign) and any(
+                isinstance(t, ast.Name) and t.id == lazy_var
+                for t in n.targets):
+            v = n.value
+            if isinstance(v, ast.Call) and isinstance(
+                    v.func, ast.Name) and v.func.id == 'set' and v.args \
+                    and isinstance(v.args[0], (ast.GeneratorExp,
+                                               ast.ListComp)):
+                elems.append((v.args[0].elt, v.args[0].generators[0]))
+            elif isinstance(v, ast.SetComp):
+                elems.append((v.elt, v.generators[0]))
+    rep.ob('R11f', builder.key + '/lazy-set-built', bool(elems),
+           'cannot find where the lazy argument set is filled',
+           loc=builder.module.loc(builder.node))
+    for elt, loop in elems:
+        it = loop.iter if loop is not None else None
+        tgt = loop.target if loop is not None else None
+        ok = False
+        why = 'is not the loop key'
+        if isinstance(elt, ast.Name) and it is not None:
+            first = None
+            if isinstance(tgt, ast.Tuple) and tgt.elts and isinstance(
+                    tgt.elts[0], ast.Name):
+                first = tgt.elts[0].id
+            keyed = isinstance(it, ast.Call) and (
+                (isinstance(it.func, ast.Name) and
+                 it.func.id == 'enumerate') or
+                (isinstance(it.func, ast.Attribute) and
+                 it.func.attr == 'items'))
+            keys_only = isinstance(tgt, ast.Name) and isinstance(
+                it, ast.Call) and isinstance(it.func, ast.Attribute) and \
+                it.func.attr == 'keys' and tgt.id == elt.id
+            ok = (keyed and first == elt.id) or keys_only
+        rep.ob('R11f', builder.key + '/lazy-key[%s]' % model.norm(elt), ok,
+               'the lazy-argument set records `%s` (%s) for an argument of '
+               '`%s`; the evaluation sweep looks arguments up by their '
+               'index / by the keyword used in the call, so a lazy '
+               'argument whose parameter name or alias differs from that '
+               'key (aliased parameters, **kwargs) is evaluated eagerly' % (
+                   model.norm(elt), why, model.norm(it) if it is not None
+                   else '?'),
+               loc=builder.module.loc(elt), construct=model.norm(elt))
+
+
 def check_r11b(repo, rep, uni):
     """No evaluation site is reachable from the matching code."""
     targets = []
@@ -660,14 +751,16 @@ def check_r11e(repo, rep, uni):
         if not ci.module.name.startswith('yaql.standard_library'):
             continue
         reach = {}
-        for name, m in ci.methods.items():
-            if name in RICH_CMP:
-                reach[m.key] = m
-                for c in model.calls_in(m.node):
-                    if isinstance(c.func, ast.Attribute) and \
-                            c.func.attr in ci.methods:
-                        t = ci.methods[c.func.attr]
-                        reach[t.key] = t
+        work = [m for name, m in ci.methods.items() if name in RICH_CMP]
+        while work:
+            m = work.pop()
+            if m.key in reach:
+                continue
+            reach[m.key] = m
+            for c in model.calls_in(m.node):
+                if isinstance(c.func, ast.Attribute) and \
+                        c.func.attr in ci.methods:
+                    work.append(ci.methods[c.func.attr])
         for m in reach.values():
             for c in model.calls_in(m.node, shallow=True):
                 f = c.func
@@ -699,6 +792,8 @@ def run(repo, rep):
              'evaluated by exactly one index-ordered traversal of the '
              'positional and one of the keyword arguments, outside every '
              'loop over candidates, skipping lazy positions')
+    rep.rule('R11f', 'LAZY-KEYS: the lazy argument set is keyed by the '
+             'positional index and the call\'s keyword, like the sweep')
     rep.rule('R11b', 'MATCHING-NEVER-EVALUATES: no expression evaluation is '
              'reachable from map_args, check, translate_args, '
              '_is_specialization_of, or get_delegate outside its thunks')
@@ -723,6 +818,7 @@ def run(repo, rep):
         '%s: %s' % (fi.key, model.norm(c)) for fi, c in sites]
     rep.floor('expression evaluation sites', len(sites), 9)
     check_r11a(repo, rep)
+    check_lazy_keys(repo, rep)
     check_r11b(repo, rep, uni)
     check_r11c(repo, rep, uni)
     check_r11d(repo, rep, uni)
